@@ -88,9 +88,12 @@ FChain == (kind = "Chain") =>
     /\ snap.final = CurAfter(snap.init, snap.calls, Len(snap.calls))
     /\ Len(snap.calls) = snap.writes              \* every write of a resident key consults the validator exactly once
 \* C17, PARALLEL lookups: Get of Cache.tla adds exactly one to hit or to miss, atomically, whatever other clients do
+\* C15, the same lookups: each is recorded in the lookup ring and leaves it in exactly one batch, which is counted as kept
+\* or as dropped (Ring.tla's accounting, under parallel pushes into one stripe)
 FHammer == (kind = "Hammer") =>
     /\ snap.hit + snap.miss = snap.lookups
     /\ snap.hit = snap.found
+    /\ snap.kept + snap.dropped + snap.ring_after = snap.lookups + snap.ring_before
 
 Accepted ==
     IF TLCGet("stats").diameter - 1 = Len(Rec) THEN TRUE
